@@ -31,9 +31,10 @@ SCRATCH = "/tmp/c08"
 CORPUS = os.path.join(C.ROOT, "corpus", "C08")
 
 BOUNDS = (f"resource bound of G (measured by harness-side counters, inputs above it are counted as out-of-domain and not judged): "
-          f"<= {c08run.MAX_STMTS} statements compiled counting .repeat/.include multiplicity, .repeat count <= {c08run.MAX_STMTS}, "
-          f"shift counts <= {c08run.MAX_SHIFT} bits, integers <= 2^{c08run.MAX_BITS.bit_length() - 1} bits, include depth <= {c08run.MAX_INCLUDE} "
-          f"(no self-inclusion), <= {c08run.MAX_OPERATORS} operators per expression, .align <= {c08run.MAX_ALIGN}")
+          f"<= {c08run.MAX_STMTS} statements compiled counting .repeat/.include multiplicity, "
+          f"shift counts <= {c08run.MAX_SHIFT} bits, integers <= 2^{c08run.MAX_BITS.bit_length() - 1} bits, "
+          f"<= {c08run.MAX_OPERATORS} operators per expression; counts, sizes, alignments, addresses and include graphs are unbounded "
+          f"(the assembler must refuse absurd ones itself); workers run under RLIMIT_AS = 2 GB")
 RULE = ("(proof part) wait-model cases: seeded random graphs of 1-12 deferred objects (settled to an int / settled to another object / "
         "fn over 0-3 dependencies returning c+sum or another object, as a Deferred or as a LinearPolynomial subclass / unsettled Promise), cyclic with probability ~1/2, plus fixed shapes "
         "(a=a, mutual, forwarding rings, forwarding chains of N1-2..N1+1 plain objects against the `len(seen) >= N1` bound and of N2-1..N2+2 polynomial objects against the `polynomial_steps >= N2` bound of wait(), both literals read from the source), 1-4 wait() calls each, speculative or not; "
@@ -113,32 +114,41 @@ def gen_wait_cases(rng, n):
     bound, bound2 = seen_bounds()
     cases = []
     fixed = [
-        ([("fn", [], 0, 0)], [(0, False)]),                                   # a = a
-        ([("fn", [1], 1, None), ("fn", [0], 1, None)], [(0, False), (1, True)]),  # a = b+1, b = a+1
-        ([("fn", [], 0, 1), ("fn", [], 0, 2), ("fn", [], 0, 0)], [(1, False)]),   # forwarding ring
-        ([("fn", [0], 0, None)], [(0, False), (0, True)]),                     # waits for itself
-        ([("fn", [1, 2], 1, None), ("const", 5), ("fn", [1], 2, None)], [(0, False), (2, False), (0, True)]),
-        ([("fn", [1], 0, None), ("unsettled",)], [(0, True), (0, False), (0, True)]),
-        ([("constf", 1), ("constf", 2), ("const", 9)], [(0, False)]),
-        ([("fn", [1], 3, 2), ("const", 4), ("fn", [1, 1], 0, None)], [(0, False)]),
-        ([("fn", [1], 0, None), ("fn", [2], 0, None), ("fn", [3], 0, None), ("fn", [1], 0, None)], [(0, False), (3, False)]),
+        ([("fn", [], 0, 0)], [(0, 0)]),                                   # a = a
+        ([("fn", [1], 1, None), ("fn", [0], 1, None)], [(0, 0), (1, 1)]),  # a = b+1, b = a+1
+        ([("fn", [], 0, 1), ("fn", [], 0, 2), ("fn", [], 0, 0)], [(1, 0)]),   # forwarding ring
+        ([("fn", [0], 0, None)], [(0, 0), (0, 1)]),                     # waits for itself
+        ([("fn", [1, 2], 1, None), ("const", 5), ("fn", [1], 2, None)], [(0, 0), (2, 0), (0, 1)]),
+        ([("fn", [1], 0, None), ("unsettled",)], [(0, 1), (0, 0), (0, 1)]),
+        ([("constf", 1), ("constf", 2), ("const", 9)], [(0, 0)]),
+        ([("fn", [1], 3, 2), ("const", 4), ("fn", [1, 1], 0, None)], [(0, 0)]),
+        ([("fn", [1], 0, None), ("fn", [2], 0, None), ("fn", [3], 0, None), ("fn", [1], 0, None)], [(0, 0), (3, 0)]),
+    ]
+    # the not_ready_yet memo: several speculative waits inside ONE outermost speculation (2 = continue it), then a real one,
+    # then a new speculation: memo hits on shared not-ready sub-objects, sub-objects that a hit leaves unsettled
+    fixed += [
+        ([("fn", [1], 0, None), ("unsettled",), ("fn", [3, 0], 0, None), ("const", 3), ("fn", [3, 1], 1, None)],
+         [(0, 1), (2, 2), (4, 2), (0, 0), (2, 1), (2, 2)]),
+        ([("fn", [1, 1], 0, None), ("fn", [2, 2], 0, None), ("fn", [3, 3], 0, None), ("unsettled",)], [(0, 1), (0, 2), (1, 2), (0, 1)]),
+        ([("fn", [1, 2], 0, None), ("fn", [2], 1, None), ("fn", [0], 0, None)], [(0, 1), (1, 2), (2, 2), (0, 0)]),
+        ([("poly", [2], 0, 1), ("poly", [3], 0, None), ("const", 1), ("unsettled",), ("fn", [1, 0], 0, None)], [(4, 1), (0, 2), (1, 2), (4, 2), (4, 0)]),
     ]
     cases += fixed
     # the `len(seen) >= N` bound: forwarding chains of N-2 .. N+1 objects ending in a constant
     for ln in (bound - 2, bound - 1, bound, bound + 1):
         specs = [("constf", k + 1) for k in range(ln)] + [("const", 7)]
-        cases.append((specs, [(0, False), (1, False), (ln - 3, False)]))
+        cases.append((specs, [(0, 0), (1, 0), (ln - 3, 0)]))
     # the `polynomial_steps >= N2` bound: chains of N2-1 .. N2+2 polynomial objects each yielding the next (N2-2 .. N2+1 counted
     # steps), the same with every other object a plain Deferred (no counted step), and a polynomial ring
     for ln in (bound2 - 1, bound2, bound2 + 1, bound2 + 2):
         specs = [("poly", [], 0, k + 1) for k in range(ln)] + [("const", 7)]
-        cases.append((specs, [(0, False), (2, False)]))
+        cases.append((specs, [(0, 0), (2, 0)]))
     specs = [(("poly" if k % 2 else "fn"), [], 0, k + 1) for k in range(3 * bound2)] + [("const", 3)]
-    cases.append((specs, [(0, False)]))
+    cases.append((specs, [(0, 0)]))
     specs = [("poly", [], 0, (k + 1) % 5) for k in range(5)]
-    cases.append((specs, [(0, False), (3, True)]))
+    cases.append((specs, [(0, 0), (3, 1)]))
     specs = [("poly", [1], 1, None), ("poly", [], 0, 2), ("fn", [3], 2, None), ("poly", [], 0, 4), ("const", 5)]
-    cases.append((specs, [(0, False)]))
+    cases.append((specs, [(0, 0)]))
     while len(cases) < n:
         k = rng.choice([1, 2, 3, 4, 5, 6, 8, 12])
         acyclic = rng.random() < 0.5
@@ -156,7 +166,11 @@ def gen_wait_cases(rng, n):
                 deps = [rng.choice(pool) for _ in range(rng.choice([0, 1, 1, 2, 3]))] if pool else []
                 fwd = rng.choice(pool) if (pool and rng.random() < 0.25) else None
                 specs.append(("poly" if rng.random() < 0.3 else "fn", deps, rng.randrange(-5, 6), fwd))
-        steps = [(rng.randrange(k), rng.random() < 0.4) for _ in range(rng.choice([1, 2, 3, 4]))]
+        steps, prev = [], 0
+        for _ in range(rng.choice([1, 2, 3, 4, 6])):
+            spn = rng.choice([0, 0, 1, 2, 2]) if prev else rng.choice([0, 0, 1, 1])
+            steps.append((rng.randrange(k), spn))
+            prev = spn
         cases.append((specs, steps))
     return cases
 
@@ -167,6 +181,9 @@ def wait_case_job(specs, steps):
     m = impl.load()
     D = m["deferred"]
     impl.reset_global_state()
+    if hasattr(D.try_compute, "not_ready_yet"):
+        D.try_compute.not_ready_yet = {}     # a fresh process state for the case (entries of an earlier case are dead objects)
+
     class FakePoly(D.LinearPolynomial):
         """an object wait() takes for a LinearPolynomial, behaving like an unsettled Deferred with the given fn"""
 
@@ -215,11 +232,21 @@ def wait_case_job(specs, steps):
     obs = []
     old = signal.signal(signal.SIGALRM, impl._alarm)
     try:
-        for start, spec in steps:
+        session = False
+        for start, spn in steps:
             signal.setitimer(signal.ITIMER_REAL, 10)
+            spec = spn != 0
             try:
+                # the real context manager: entering at depth 0 empties the memo; the outermost speculation stays open
+                # over the steps with spn == 2 (each of them one nested `with try_compute`)
+                if session and spn != 2:
+                    D.try_compute.__exit__(None, None, None)
+                    session = False
+                if spec and not session:
+                    D.try_compute.__enter__()
+                    session = True
                 if spec:
-                    D.try_compute.depth += 1
+                    D.try_compute.__enter__()
                 try:
                     v = D.wait(nodes[start])
                     o = ("val", v) if isinstance(v, int) else ("other", type(v).__name__)
@@ -235,15 +262,19 @@ def wait_case_job(specs, steps):
                     o = ("crash",) if "is not ready" in str(ex) else ("other", type(ex).__name__)
                 finally:
                     if spec:
-                        D.try_compute.depth -= 1
+                        D.try_compute.__exit__(None, None, None)
             finally:
                 signal.setitimer(signal.ITIMER_REAL, 0)
             flags_clear = not any(nd.is_awaiting for nd in nodes) and not D.Awaiting.awaiting_stack
             sett = [bool(getattr(nd, "settled", False)) if specs[k][0] in ("fn", "poly") else False for k, nd in enumerate(nodes)]
-            obs.append((o, flags_clear, sett))
+            memo = getattr(D.try_compute, "not_ready_yet", {})
+            obs.append((o, flags_clear, sett, [id(nd) in memo for nd in nodes]))
             if o[0] == "hang":
                 break
     finally:
+        if session:
+            D.try_compute.__exit__(None, None, None)
+        D.try_compute.depth = 0
         signal.signal(signal.SIGALRM, old)
     return obs
 
@@ -267,8 +298,8 @@ def wait_term(specs, steps, obs):
         return {"val": lambda: f"ObsVal {C.zlit(o[1])}", "cycle": lambda: "ObsCycle", "notready": lambda: "ObsNotReady",
                 "crash": lambda: "ObsCrash", "hang": lambda: "ObsHang", "other": lambda: "ObsOther"}[o[0]]()
     st = []
-    for (start, spec), (o, fc, sett) in zip(steps, obs):
-        st.append(f"({start}%nat, {b(spec)}, {ob(o)}, {b(fc)}, [" + "; ".join(b(x) for x in sett) + "])")
+    for (start, spn), (o, fc, sett, memo) in zip(steps, obs):
+        st.append(f"({start}%nat, {int(spn)}%nat, {ob(o)}, {b(fc)}, [" + "; ".join(b(x) for x in sett) + "], [" + "; ".join(b(x) for x in memo) + "])")
     return "([" + "; ".join(sp(s) for s in specs) + "], [" + "; ".join(st) + "])"
 
 
